@@ -6,7 +6,8 @@
    every theorem below is re-proved against what the code says now. *)
 From Verif Require Import Common.Base.
 From Verif Require Import Generated.C15Recv Generated.C15GrpcExp Generated.C15HttpExp Generated.C15StatusUtil.
-From Verif Require Import C15.Model C15.Proofs.
+From Verif Require Import Generated.C15Shutdown Generated.C15RecvHttpGraph Generated.C15ErrorsGraph.
+From Verif Require Import C15.Model C15.Harness C15.Proofs C15.Obligations.
 Local Open Scope Z_scope.
 
 (* ---- clause 1: the data arrives equal to what was sent, for every signal / encoding / compression.
@@ -61,16 +62,42 @@ Proof. exact success_iff_accepted_refuted_l. Qed.
    Shutdown starts is drained (same result as without the shutdown), a request sent after the shutdown never
    reaches the consumer and fails as retryable; in every phase success <-> the consumer was handed the data
    and accepted it *)
-Theorem shutdown_drains_inflight : forall t a n o, hop_at InFlightAtShutdown t a n o = hop t a n o.
+Theorem receiver_stop_calls :
+  receiver_stop_call Grpc = GrpcGracefulStop /\ receiver_stop_call HttpPb = HttpShutdown /\
+  receiver_stop_call HttpJson = HttpShutdown.
+Proof. exact receiver_stop_calls_l. Qed.
+
+(* for every library behaviour in which http.Server.Shutdown and grpc.Server.GracefulStop drain (their
+   documented semantics; validated on the implementation by the kind-10 scenarios), on all three transports: *)
+Theorem shutdown_drains_inflight : forall lib_drains : stop_call -> bool,
+  lib_drains HttpShutdown = true -> lib_drains GrpcGracefulStop = true ->
+  forall t a n o, hop_at_lib lib_drains InFlightAtShutdown t a n o = hop t a n o.
 Proof. exact shutdown_drains_l. Qed.
 
-Theorem after_shutdown_not_consumed_retryable : forall t a n o,
-  h_called (hop_at AfterShutdown t a n o) = false /\ h_verdict (hop_at AfterShutdown t a n o) = Retryable.
+Theorem after_shutdown_not_consumed_retryable : forall (lib_drains : stop_call -> bool) t a n o,
+  h_called (hop_at_lib lib_drains AfterShutdown t a n o) = false /\
+  h_verdict (hop_at_lib lib_drains AfterShutdown t a n o) = Retryable.
 Proof. exact after_shutdown_l. Qed.
 
-Theorem success_iff_consumer_accepted_partial : forall ph t a n o, a <> AuthFail -> (0 < n)%N -> ok_coded o = false ->
-  (h_verdict (hop_at ph t a n o) = Success <-> (h_called (hop_at ph t a n o) = true /\ o = Accept)).
+Theorem success_iff_consumer_accepted_partial : forall lib_drains : stop_call -> bool,
+  lib_drains HttpShutdown = true -> lib_drains GrpcGracefulStop = true ->
+  forall ph t a n o, a <> AuthFail -> (0 < n)%N -> ok_coded o = false ->
+  (h_verdict (hop_at_lib lib_drains ph t a n o) = Success <->
+   (h_called (hop_at_lib lib_drains ph t a n o) = true /\ o = Accept)).
 Proof. exact success_iff_consumer_accepted_l. Qed.
+
+(* the documented semantics is such a behaviour (so the three theorems above apply to [hop_at]) ... *)
+Theorem documented_library_semantics_drains :
+  documented_lib HttpShutdown = true /\ documented_lib GrpcGracefulStop = true.
+Proof. exact documented_lib_drains. Qed.
+
+(* ... and the hypotheses are needed: were the call made on the server of transport t one that does not drain
+   (Close / Stop), a request accepted by the consumer during the shutdown would be reported as a failure *)
+Theorem non_draining_stop_breaks_success_iff_accepted : forall (lib_drains : stop_call -> bool) t a n,
+  a <> AuthFail -> (0 < n)%N -> lib_drains (receiver_stop_call t) = false ->
+  h_called (hop_at_lib lib_drains InFlightAtShutdown t a n Accept) = true /\
+  h_verdict (hop_at_lib lib_drains InFlightAtShutdown t a n Accept) = Retryable.
+Proof. exact cut_breaks_success_iff_accepted_l. Qed.
 
 (* ---- clause 3: how a consumer error is reported: an explicit gRPC status => that status (code and
    RetryInfo); any other permanent error => Internal; any other error => Unavailable *)
@@ -259,12 +286,37 @@ Proof. exact authenticator_transparent_l. Qed.
 Theorem unauthenticated_hop : forall t n o, hop t AuthFail n o = mkHop false Permanent (Some codes_Unauthenticated).
 Proof. exact hop_auth_fail. Qed.
 
+(* ---- the model against the CURRENT code, as obligations (C15/Obligations.v): every line of the graphs of
+   writeStatusResponse / readContentType / errorHandler / writeError and of GetStatusFromError /
+   GetHTTPStatusCodeFromStatus, dumped by running the functions of the current tree on their finite domains,
+   agrees with the hand-written model function; the graphs have their full size *)
+Theorem recvhttp_model_matches_code : forallb check_dump recvhttp_graph = true.
+Proof. exact recvhttp_model_matches_code_l. Qed.
+
+Theorem recvhttp_graph_complete :
+  (1000 <=? count_kind 1 recvhttp_graph = true)%nat /\ (count_kind 2 recvhttp_graph = 6)%nat /\
+  (count_kind 3 recvhttp_graph = 1500)%nat /\ (100 <=? count_kind 4 recvhttp_graph = true)%nat.
+Proof. exact recvhttp_graph_complete_l. Qed.
+
+Theorem errors_model_matches_code : forallb check_case errors_graph = true.
+Proof. exact errors_model_matches_code_l. Qed.
+
+Theorem errors_graph_complete : (700 <=? length errors_graph = true)%nat.
+Proof. exact errors_graph_complete_l. Qed.
+
+Print Assumptions recvhttp_model_matches_code.
+Print Assumptions recvhttp_graph_complete.
+Print Assumptions errors_model_matches_code.
+Print Assumptions errors_graph_complete.
 Print Assumptions hop_delivers.
 Print Assumptions hop_sink_is_sent_payload.
 Print Assumptions empty_request_acknowledged.
 Print Assumptions empty_request_hop.
 Print Assumptions success_iff_accepted_partial.
 Print Assumptions success_iff_accepted_refuted.
+Print Assumptions receiver_stop_calls.
+Print Assumptions documented_library_semantics_drains.
+Print Assumptions non_draining_stop_breaks_success_iff_accepted.
 Print Assumptions shutdown_drains_inflight.
 Print Assumptions after_shutdown_not_consumed_retryable.
 Print Assumptions success_iff_consumer_accepted_partial.
